@@ -30,7 +30,7 @@ import common
 from common import Ctx, Outcome
 
 DRIVERS = ["Geom"]
-TABLES = False
+TABLES = True
 LEVEL = "proof"
 RULE = ("kernel: every (box, point, source, style, port) with proper boxes having corners in {0..N}^2 and point, source "
         "in {-M..N+M}^2 - quick N=3, M=1 (233 280 cases); thorough N=4, M=2 complete (3.28 M) plus 16 seeded boxes of the "
@@ -1037,6 +1037,367 @@ def edge_chain(ctx: Ctx, out: Outcome, diagram) -> None:
         }
 
 
+# ------------------------------------------------------------------ (a2b) edges attached to edges
+
+
+def edge_end_cases(ctx: Ctx) -> list[dict]:
+    """inputs of `generic_factory` where the source and/or the target is another EDGE (integer grid; mostly axis-parallel
+    polylines - `Edge.center` is modelled for those -, some with an oblique or a zero-length segment)"""
+    rng = ctx.rng
+    cases = []
+
+    def poly():
+        x, y = rng.randint(-60, 60), rng.randint(-60, 60)
+        pts = [(F(x), F(y))]
+        kind = rng.choice(["axis"] * 6 + ["oblique", "zero"])
+        for k in range(rng.randint(1, 4)):
+            step = rng.choice([4, 10, 30, -6, -20])
+            if kind == "oblique" and k == 0:
+                x, y = x + step, y + rng.choice([3, -7])
+            elif kind == "zero" and k == 0:
+                pass
+            elif (k + (kind == "axis")) % 2:
+                x += step
+            else:
+                y += step
+            pts.append((F(x), F(y)))
+        labels = [(F(rng.randint(-70, 70)), F(rng.randint(-70, 70)), F(rng.randint(1, 40)), F(rng.randint(1, 12)))] if rng.random() < 0.3 else []
+        return {"edge": pts, "labels": labels}
+
+    def box():
+        port = rng.random() < 0.25
+        b = (F(rng.randint(-60, 60)), F(rng.randint(-60, 60)), F(10) if port else F(4 * rng.randint(1, 15)), F(10) if port else F(4 * rng.randint(1, 12)))
+        return {"box": b, "port": port, "labels": []}
+
+    for n in range(ctx.pick(600, 6000)):
+        which = rng.choice(["tgt", "tgt", "src", "both"])
+        src = poly() if which in ("src", "both") else box()
+        tgt = poly() if which in ("tgt", "both") else box()
+        anchor = rng.choice([(F(1, 2), F(1, 2)), (F(0), F(0)), (F(1), F(1)), (F(1, 4), F(3, 4))])
+        kind = rng.choice(["default", "default", "all-equal", "general", "general", "two-point"])
+        rel = {"default": None, "all-equal": [(3, 4)] * 2, "two-point": [(rng.randint(-80, 80), rng.randint(-80, 80)) for _ in range(2)],
+               "general": [(rng.randint(-120, 120), rng.randint(-120, 120)) for _ in range(rng.randint(2, 5))]}[kind]
+        cases.append({"src": src, "tgt": tgt, "anchor": anchor, "rel": rel, "style": STYLES[n % 3], "gen": kind, "which": which})
+    return cases
+
+
+def impl_edge_end(rig: EdgeRig, c: dict, v=(0, 0)):
+    d = rig.diagram
+    dg = d.Diagram("t")
+
+    def el(e, uuid):
+        if "edge" in e:
+            return d.Edge([(float(x + v[0]), float(y + v[1])) for x, y in e["edge"]], uuid=uuid,
+                          labels=[d.Box((float(l[0] + v[0]), float(l[1] + v[1])), (float(l[2]), float(l[3]))) for l in e["labels"]])
+        b = e["box"]
+        return rig.box((b[0] + v[0], b[1] + v[1], b[2], b[3]), e["port"], [], uuid)
+
+    try:
+        dg.add_element(el(c["src"], "S"), False)
+        dg.add_element(el(c["tgt"], "T"), False)
+    except (ValueError, ZeroDivisionError) as ex:
+        return ("e", err_kind(ex))
+    de = rig.etree.Element("edges", {"element": "E", "source": "S", "target": "T"})
+    rig.etree.SubElement(de, "sourceAnchor", {"id": f"({float(c['anchor'][0])!r}, {float(c['anchor'][1])!r})"})
+    bp = rig.etree.SubElement(de, "bendpoints", {rig.C.ATT_XMT: "notation:RelativeBendpoints"})
+    if c["rel"] is not None:
+        bp.set("points", "$".join(f"[{x}, {y}, 0, 0]" for x, y in c["rel"]))
+    dge = rig.etree.Element("ownedDiagramElements")
+    st = rig.etree.SubElement(dge, "ownedStyle")
+    if c["style"] != "oblique":
+        st.set("routingStyle", c["style"])
+    seb = rig.C.SemanticElementBuilder(target_diagram=dg, diagram_tree=None, data_element=de, melodyloader=None, fragment=None,
+                                       diag_element=dge, styleclass=None, melodyobjs=[])
+    try:
+        e = rig.EF.generic_factory(seb)
+    except (AssertionError, ValueError, ZeroDivisionError, IndexError) as ex:
+        return ("e", err_kind(ex))
+    return ("r", [(pt.x, pt.y) for pt in e])
+
+
+def edge_ends(ctx: Ctx, out: Outcome, diagram) -> None:
+    """correspondence + monitor for `generic_factory` with an Edge as source and/or target (`Model/GeomEdgeEnd.lean`)"""
+    rig = EdgeRig(diagram)
+    rng = ctx.rng
+    cases = edge_end_cases(ctx)
+    no_model = os.environ.get("VERIF_NO_MODEL") == "1"
+
+    def enc(e):
+        if "edge" in e:
+            return {"edge": [[q(x), q(y)] for x, y in e["edge"]], "labels": [[q(x) for x in l] for l in e["labels"]]}
+        return {"box": [q(x) for x in e["box"]], "port": e["port"], "labels": []}
+
+    reqs = [{"op": "edgeE", "src": enc(c["src"]), "tgt": enc(c["tgt"]), "anchor": [q(c["anchor"][0]), q(c["anchor"][1])],
+             "rel": [[x, y] for x, y in (c["rel"] if c["rel"] is not None else [(0, 0), (0, 0)])], "style": c["style"]} for c in cases]
+    answers = [] if no_model else common.model(reqs, driver="Geom")
+    dist: dict[str, int] = {}
+    for k, c in enumerate(cases):
+        res = impl_edge_end(rig, c)
+        v = (rng.choice([1, -10000, 7, -3333, 65537]), rng.choice([0, -10000, 10000, 4, -32771]))
+        rep = {"kind": "edgeend", "src": case_json(c["src"]), "tgt": case_json(c["tgt"]), "anchor": [str(a) for a in c["anchor"]], "rel": c["rel"], "style": c["style"], "v": list(v)}
+        for sig, what in edge_end_monitor(rig, c, res, v):
+            out.find(sig, what, rep)
+            out.hit("monitor:" + sig)
+        if answers:
+            a = answers[k].get("ok", {})
+            if a.get("e") == "degenerate":
+                out.hit("endE:outside-model:centre-of-a-polyline-with-oblique-segments")  # Edge.center needs sqrt there; judged by the monitor only
+                for t in a.get("br", []):
+                    out.hit(t)
+            else:
+                compare_points(out, "edgeE." + c["style"], rep, res, answers[k], "edgeE")
+            out.traces_validated += 1
+        key = f"edgeE:{c['style']}:{c['gen']}:{c['which']}"
+        dist[key] = dist.get(key, 0) + 1
+        out.case(("edgeend", str(rep)), rep if k % 199 == 0 else None, nontrivial=True)
+    out.extra["edge_end_inputs"] = dict(sorted(dist.items()))
+
+
+def edge_end_monitor(rig: EdgeRig, c: dict, res, v) -> list[tuple[str, str]]:
+    """the statement on one result: no exception other than the zero-length segment of the other edge, finite, a box end on
+    the outline of its box (tree: top/bottom side), an end at an edge exactly where the stored bend points put it
+    (`snaptarget` is not called there), and the same edge translated by `v` when both ends are translated by `v`"""
+    st = c["style"]
+    zero_seg = any(a == b for e in (c["src"], c["tgt"]) if "edge" in e for a, b in zip(e["edge"], e["edge"][1:]))
+    if res[0] == "e":
+        if res[1] == "zeroSegment" and zero_seg and c["rel"] in (None, [(3, 4)] * 2) and st != "tree":
+            return []  # Edge.center / Edge.vector_snap of an edge with a zero-length segment (ZeroDivisionError of `normalized`): the other edge's defect, not this one's
+        return [(f"generic_factory(edge-end)|{st}|raises|{res[1]}", f"generic_factory raised {res[1]}")]
+    pts = res[1]
+    if any(not math.isfinite(cc) for p in pts for cc in p) or len(pts) < 2:
+        return [(f"generic_factory(edge-end)|{st}|non-finite-or-short", f"points {pts}")]
+    bad = []
+    stored = c["rel"] is not None and len(set(c["rel"])) > 1
+    if stored:
+        s_ = c["src"]
+        if "edge" in s_:
+            xs = [p[0] for p in s_["edge"]] + [l[0] for l in s_["labels"]] + [l[0] + l[2] for l in s_["labels"]]
+            ys = [p[1] for p in s_["edge"]] + [l[1] for l in s_["labels"]] + [l[1] + l[3] for l in s_["labels"]]
+        else:
+            xs, ys = [s_["box"][0], s_["box"][0] + s_["box"][2]], [s_["box"][1], s_["box"][1] + s_["box"][3]]
+        ref = (min(xs) + (max(xs) - min(xs)) * c["anchor"][0], min(ys) + (max(ys) - min(ys)) * c["anchor"][1])
+        for which, e, got, r in (("source", c["src"], pts[0], c["rel"][0]), ("target", c["tgt"], pts[-1], c["rel"][-1])):
+            if "edge" in e and not vclose(got, (ref[0] + r[0], ref[1] + r[1])):
+                bad.append((f"generic_factory(edge-end)|{st}|end-at-edge-moved", f"{which} end {got} is not the stored point {(str(ref[0] + r[0]), str(ref[1] + r[1]))}"))
+    for which, e, seq in (("source", c["src"], pts), ("target", c["tgt"], pts[::-1])):
+        if "box" in e:
+            cls = end_class(e["box"], e["port"], seq[0], st, seq[1])
+            if cls is not None:
+                sig = f"generic_factory|tree|end-off-side|{cls}" if st == "tree" else f"generic_factory(edge-end)|{st}|end-off-outline"
+                bad.append((sig, f"{which} end {seq[0]} of {pts} not on the {'top/bottom side' if st == 'tree' else 'outline'} of {[str(x) for x in e['box']]}"))
+    moved = impl_edge_end(rig, c, v)
+    if moved[0] == "e":
+        bad.append((f"generic_factory(edge-end)|{st}|translated|raises|{moved[1]}", f"translated by {v}: raised {moved[1]}"))
+    elif not (len(moved[1]) == len(pts) and all(abs(F(a[0]) + v[0] - F(b[0])) <= PTOL and abs(F(a[1]) + v[1] - F(b[1])) <= PTOL for a, b in zip(pts, moved[1]))):
+        bad.append((f"generic_factory(edge-end)|{st}|translated|not-equivariant", f"{pts} translated by {v} became {moved[1]}"))
+    return bad
+
+
+# ------------------------------------------------------------------ (a5) float-boundary robustness (boundary-directed)
+
+ROBUST_CLASSES = {  # family -> class in Model/GeomSites.lean (checked against the driver's `sites` answer)
+    "oblique:containment": "jumpTol", "oblique:direction-sign": "agree", "closest:diagonal": "agree",
+    "closest:diagonal-top-right": "jump", "oblique:along-border": "jump",
+    "oblique:point-eq-source": "jump", "oblique:source-at-centre": "jump", "closest:source-at-centre": "jump",
+    "manhattan:range-border": "jump", "manhattan:axis-tie": "jump", "tree:direction-level": "jump", "tree:zero-direction": "jump",
+}
+# declared jumps of the table that are exercised by other streams (lattices, kernel_misc, edge chain), not by this one
+ROBUST_ELSEWHERE = ["edge-snap:equidistant-segments", "circle:centre", "boxsnap:equidistant-sides", "route-manhattan:dx-eq-dy",
+                    "route-tree:centres-level", "snap_oblique:one-radian"]
+
+
+def robust_bases(ctx: Ctx) -> list[dict]:
+    """inputs placed EXACTLY on each comparison boundary (dyadic numbers: exact in both worlds)"""
+    rng = ctx.rng
+    out = []
+
+    def add(fam, box, p, s, style, port=False, sub=""):
+        if fam == "oblique:containment" and (p[0] - s[0]) * (p[1] - s[1]) == 0:
+            return  # (coincident or axis-parallel to the end point: that is another family's boundary)
+        out.append({"fam": fam, "sub": sub, "box": [float(v) for v in box], "port": port, "p": [float(p[0]), float(p[1])],
+                    "s": [float(s[0]), float(s[1])], "style": style, "m": float(m), "far": abs(o) > 1024 * m})
+
+    for _ in range(ctx.pick(24, 240)):
+        m = F(2) ** rng.choice([-6, 0, 0, 3, 8])
+        # offsets: line_intersect works with absolute determinants, its error grows like offset^2 * 2^-53 / (box size)^2; the far
+        # offsets are only combined with boxes large enough to keep that below the 1e-6 of the code's own tolerance
+        o = rng.choice([F(0), F(-1000), F(3)] + ([F(2**16) + 1, F(-40000)] if m >= 8 else [])) * (1 if m >= 1 else m)
+        bx, by = o + m * rng.randint(-8, 8), o - m * rng.randint(-8, 8)
+        bw, bh = m * rng.randint(1, 12), m * rng.randint(1, 12)
+        box = (bx, by, bw, bh)
+        cx, cy = bx + bw / 2, by + bh / 2
+        t, u = F(rng.randint(0, 8), 8), F(rng.randint(1, 7), 8)
+        ti = F(rng.randint(1, 7), 8)
+        k = m * rng.choice([1, 2, 5])
+        borders = [((bx + t * bw, by), (0, -1)), ((bx + t * bw, by + bh), (0, 1)), ((bx, by + t * bh), (-1, 0)), ((bx + bw, by + t * bh), (1, 0))]
+        for (px, py), (nx, ny) in borders:
+            src = (px + nx * k + ny * k * u, py + ny * k + nx * k * u)  # outside, beyond the border, slightly oblique
+            add("oblique:containment", box, (px, py), src, "oblique", sub="on-border")
+            add("oblique:containment", box, (px, py), (cx + nx * 3 * bw, cy + ny * 3 * bh - k * u), "oblique", sub="on-border")
+            tol = 1e-6
+            add("oblique:containment", box, (float(px) + nx * tol, float(py) + ny * tol), src, "oblique", sub="on-border+tol")
+            # manhattan: the end point on the border line, approached ALONG that line (the range test of the other coordinate)
+            along = (px + ny * k * 3 - nx * 0, py + nx * k * 3) if nx == 0 else (px, py)
+            if ny != 0:
+                add("manhattan:range-border", box, (px, py), (px + 3 * k, py), "manhattan", rng.random() < 0.3)
+                add("manhattan:range-border", box, (px, py), (px - 3 * k, py + k / 4), "manhattan", rng.random() < 0.3)
+            else:
+                add("manhattan:range-border", box, (px, py), (px, py + 3 * k), "manhattan", rng.random() < 0.3)
+                add("manhattan:range-border", box, (px, py), (px + k / 4, py - 3 * k), "manhattan", rng.random() < 0.3)
+        pin = (bx + u * bw, by + ti * bh)
+        add("oblique:direction-sign", box, pin, (pin[0], by - k), "oblique", sub="vertical")
+        add("oblique:direction-sign", box, pin, (bx + bw + k, pin[1]), "oblique", sub="horizontal")
+        add("oblique:along-border", box, (bx + u * bw, by + bh), (bx + bw + k, by + bh), "oblique")
+        add("oblique:along-border", box, (bx, by + ti * bh), (bx, by - k), "oblique")
+        for c in [(bx, by), (bx + bw, by), (bx, by + bh), (bx + bw, by + bh)]:
+            add("oblique:direction-sign", box, (cx, cy), (c[0] + 2 * (c[0] - cx), c[1] + 2 * (c[1] - cy)), "oblique", sub="through-corner")
+            kk = rng.choice([2, 3])
+            add("closest:diagonal-top-right" if c == (bx + bw, by) else "closest:diagonal", box, (cx + kk * (c[0] - cx), cy + kk * (c[1] - cy)), (cx + kk * (c[0] - cx), cy + kk * (c[1] - cy)), "oblique")
+        add("oblique:point-eq-source", box, pin, pin, "oblique")
+        add("oblique:source-at-centre", box, (bx - k, by - k * u), (cx, cy), "oblique")
+        add("closest:source-at-centre", box, (cx, cy), (cx, cy), "oblique")
+        for sg in (1, -1):
+            add("manhattan:axis-tie", box, pin, (pin[0] + k, pin[1] + sg * k), "manhattan", rng.random() < 0.3)
+        add("tree:direction-level", box, (pin[0], cy), (pin[0] + k, cy), "tree", rng.random() < 0.3)
+        add("tree:direction-level", box, (pin[0], by), (pin[0] - k, by), "tree", sub="on-top-line")
+        add("tree:zero-direction", box, pin, pin, "tree")
+    return out
+
+
+def robust_variants(c: dict) -> list[tuple[str, dict]]:
+    """+-1 ulp on every coordinate of point and source; translation-induced rounding (vectors that make the boundary
+    coordinate inexact: every operand is rounded on its own, so `p.y == pos.y + size.y` may break by an ulp)"""
+    res = []
+    coincide = c["fam"] in ("oblique:point-eq-source", "closest:source-at-centre", "tree:zero-direction", "oblique:source-at-centre")
+    for key in ("p", "s"):
+        if coincide and c["far"]:
+            break  # two points one ulp apart, 2^10 box sizes away from the origin: beyond the conditioning of line_intersect (design/C17.md)
+        for i in (0, 1):
+            for d in (-math.inf, math.inf):
+                v = dict(c)
+                v[key] = list(c[key])
+                v[key][i] = math.nextafter(c[key][i], d)
+                if key == "s" and c["p"] == c["s"] and c["fam"] in ("closest:diagonal", "closest:diagonal-top-right", "closest:source-at-centre"):
+                    v["p"] = list(v["s"])  # families about `source=None`: point and source move together
+                res.append((f"ulp:{key}{'xy'[i]}{'+' if d > 0 else '-'}", v))
+    b = c["box"]
+    if c["far"]:
+        return res  # non-representable coordinates 2^10 box sizes away from the origin: beyond the conditioning of line_intersect (design/C17.md)
+    mm = min(1.0, c["m"])
+    for t in ((0.1 * mm, 0.7 * mm), (-mm / 3, 10000 * mm / 7), (-(b[0] + b[2]) + 0.3 * mm, -(b[1] + b[3]) - 0.1 * mm), (65537.1 * mm, -32771.3 * mm)):
+        v = dict(c)
+        v["box"] = [b[0] + t[0], b[1] + t[1], b[2], b[3]]
+        v["p"] = [c["p"][0] + t[0], c["p"][1] + t[1]]
+        v["s"] = [c["s"][0] + t[0], c["s"][1] + t[1]]
+        v["t"] = t
+        res.append(("translate", v))
+    return res
+
+
+def robustness(ctx: Ctx, out: Outcome, diagram) -> None:
+    """Boundary-directed correspondence and robustness run: every base input sits exactly on a comparison boundary of the
+    snap code; it and its perturbations go to the implementation and (with the exact value of every float) to the model.
+    Families whose class says the branches agree (or that carry a tolerance) must be insensitive: a 1-ulp perturbation or a
+    translation-induced rounding may move the result by at most 1e-6 (relative to the scale).  For the declared jumps the
+    observed jump is recorded (non-vacuity of the declaration); soundness is judged on every variant."""
+    no_model = os.environ.get("VERIF_NO_MODEL") == "1"
+    bases = robust_bases(ctx)
+    table = None
+    if not no_model:
+        table = common.model([{"op": "sites"}], driver="Geom")[0].get("ok")
+        classes = {}
+        for srow in table["sites"]:
+            if srow["coord"]:
+                kind, _, name = srow["class"].partition(":")
+                classes.setdefault(name or kind, kind)
+        out.extra["comparison_sites"] = {"total": len(table["sites"]), "coordinate": sum(1 for r in table["sites"] if r["coord"]),
+                                         "by_class": {k: sum(1 for r in table["sites"] if r["coord"] and r["class"].partition(":")[0] == k)
+                                                      for k in sorted({r["class"].partition(":")[0] for r in table["sites"] if r["coord"]})},
+                                         "declared_jumps": table["jumps"]}
+        for fam, kind in ROBUST_CLASSES.items():
+            if fam == "oblique:direction-sign":
+                continue  # the agreement of the candidate borders in the interior (theorem `oblique_corner_agreement`); its sites carry the jump `oblique:along-border`
+            if classes.get(fam) != kind:
+                out.disagree("robust.sites", fam, kind, classes.get(fam))
+        uncovered = [j for j in table["jumps"] if j not in ROBUST_CLASSES and j not in ROBUST_ELSEWHERE]
+        if uncovered:  # a declared jump without a generator family: the table moved on, the generator has to follow
+            out.disagree("robust.sites", "declared jumps without a boundary family", sorted(ROBUST_CLASSES), uncovered)
+    allc: list[tuple[int, str, dict]] = []
+    for bi, c in enumerate(bases):
+        allc.append((bi, "base", c))
+        allc += [(bi, n, v) for n, v in robust_variants(c)]
+    reqs = [{"op": "snap", "box": [q(F(v)) for v in c["box"]], "port": c["port"], "p": [q(F(v)) for v in c["p"]], "s": [q(F(v)) for v in c["s"]],
+             "style": c["style"]} for _, _, c in allc]
+    answers = [] if no_model else common.model(reqs, driver="Geom")
+    stats: dict[str, dict] = {}
+    base_res: dict[int, tuple] = {}
+    for k, (bi, name, c) in enumerate(allc):
+        fam = c["fam"]
+        st = stats.setdefault(fam, {"class": ROBUST_CLASSES[fam], "bases": 0, "variants": 0, "max_ulp_sensitivity": 0.0, "max_translation_deviation": 0.0, "flips": 0})
+        res = impl_snap(diagram, c["box"], c["port"], c["p"], c["s"], c["style"])
+        eb, ep, es = [F(v) for v in c["box"]], [F(v) for v in c["p"]], [F(v) for v in c["s"]]
+        rep = {"kind": "snap", "box": [str(v) for v in eb], "port": c["port"], "p": [str(v) for v in ep], "s": [str(v) for v in es], "style": c["style"]}
+        sig = classify_snap(eb, ep, es, c["style"], res)
+        if sig and c.get("sub") == "on-border+tol" and res[0] == "r" and on_outline(*eb, F(res[1][0]), F(res[1][1]), F(2, 10**6)):
+            sig = None  # inside the containment band of 47523e4 the answer is within the band of the outline
+        if sig and c.get("sub") == "on-border+tol":
+            # the outer edge of the tolerance band is where the jump of the containment test lives since 47523e4
+            sig = "Box.vector_snap|oblique|boundary|oblique:containment+tol|unsound-beside-the-jump"
+        if sig and name != "base" and ROBUST_CLASSES[fam] == "jump" and c["style"] == "oblique":
+            # an assertion / a point off the outline one ulp beside a declared jump of the oblique snap (two points one ulp
+            # apart, a source one ulp from the centre, an edge one ulp off a border line): named after the boundary, so that
+            # the known entry does not hide other failures
+            sig = f"Box.vector_snap|oblique|boundary|{fam}|unsound-beside-the-jump"
+        if sig:
+            out.find(sig, f"[{fam} {name}] Box({c['box'][:2]}, {c['box'][2:]}{', port=True' if c['port'] else ''}).vector_snap({c['p']}, source={c['s']}, style={c['style']}) -> {res[1]}", rep)
+            out.hit("monitor:" + sig.split("|", 1)[1])
+        scale = max(1.0, abs(c["box"][0]) + c["box"][2], abs(c["box"][1]) + c["box"][3])
+        if name == "base":
+            base_res[bi] = res
+            st["bases"] += 1
+            if fam == "closest:diagonal-top-right" and res[0] == "r":
+                # independent statement: the closest-side snap of a source outside the box ends on the side facing it
+                cxf, cyf = c["box"][0] + c["box"][2] / 2, c["box"][1] + c["box"][3] / 2
+                if (res[1][0] - cxf) * (c["s"][0] - cxf) + (res[1][1] - cyf) * (c["s"][1] - cyf) < 0:
+                    out.find("Box.vector_snap|closest|far-corner|source-on-top-right-diagonal",
+                             f"Box({c['box'][:2]}, {c['box'][2:]}).vector_snap({c['p']}) -> {res[1]}: a source exactly on the diagonal beyond the top-right corner is snapped to the "
+                             "opposite (bottom-left) corner; one ulp beside the diagonal it is snapped to the top-right corner", rep)
+        else:
+            st["variants"] += 1
+            b0 = base_res[bi]
+            if res[0] == "r" and b0[0] == "r":
+                t = c.get("t", (0.0, 0.0))
+                dev = max(abs(res[1][0] - t[0] - b0[1][0]), abs(res[1][1] - t[1] - b0[1][1]))
+                key = "max_translation_deviation" if name == "translate" else "max_ulp_sensitivity"
+                st[key] = max(st[key], dev)
+                if dev > PTOL * scale:
+                    st["flips"] += 1
+                    if ROBUST_CLASSES[fam] != "jump" and c.get("sub") != "on-border+tol":
+                        out.find(f"Box.vector_snap|{c['style']}|boundary|{fam}|{'translation' if name == 'translate' else 'ulp'}-sensitive",
+                                 f"[{fam} {c.get('sub', '')}] {name}: result moved by {dev} (base {b0[1]}, perturbed {res[1]}) although the branches are declared to agree", rep)
+            elif res[0] != b0[0] and ROBUST_CLASSES[fam] != "jump" and c.get("sub") != "on-border+tol":
+                out.find(f"Box.vector_snap|{c['style']}|boundary|{fam}|outcome-changes", f"[{fam}] {name}: {b0} became {res}", rep)
+        if answers:
+            # containment band: the code treats a point up to 1e-6 outside the box as inside (47523e4), the exact model does not
+            band = False
+            if c["style"] == "oblique" and ep != es:
+                dx = max(eb[0] - ep[0], ep[0] - eb[0] - eb[2], 0)
+                dy = max(eb[1] - ep[1], ep[1] - eb[1] - eb[3], 0)
+                band = 0 < max(dx, dy) <= F(1001, 10**9)  # inside the band, or on its outer edge (a declared tie of its own)
+            if band:
+                out.hit("robust:tie:containment-band-not-compared")
+            elif name != "base" and ROBUST_CLASSES[fam] == "jump":
+                out.hit("robust:tie:beside-a-declared-jump-not-compared")  # which branch the float code takes there is exactly what is not tied
+            else:
+                compare_snap(out, "snap.robust", [rep["box"], c["port"], rep["p"], rep["s"], c["style"], "robust"], res, answers[k])
+                out.traces_validated += 1
+        out.case(("robust", fam, name, tuple(rep["box"]), tuple(rep["p"]), tuple(rep["s"]), c["port"]), {"stream": "snap.robust", "family": fam, **rep} if k % 1499 == 0 else None, nontrivial=True)
+        out.hit(f"robust:{fam}:{'base' if name == 'base' else name.split(':')[0]}")
+    out.extra["robustness"] = {k: v for k, v in sorted(stats.items())}
+    out.extra["robustness_note"] = ("families of class `jump` are the declared ties (branches of the code disagree on the boundary; flips = perturbed results further than "
+                                    "1e-6 from the base result); families of class `agree`/`jumpTol` must have no flips (a flip is a finding)")
+
+
 # ------------------------------------------------------------------ (a3) box nesting: _box_factories.generic_factory down a tree
 
 
@@ -1451,7 +1812,7 @@ def snapshot(diagram, dg) -> list[dict]:
                         "labels": [(l.pos.x, l.pos.y, l.size.x, l.size.y) for l in e.labels],
                         "vislabels": [not l.hidden for l in e.labels],
                         "src": getattr(e.source, "uuid", None), "tgt": getattr(e.target, "uuid", None),
-                        "style": getattr(e, "_c17_style", None)})
+                        "style": getattr(e, "_c17_style", None), "ends_t": [type(e.source).__name__, type(e.target).__name__]})
         elif isinstance(e, diagram.Box):
             els.append({"t": "box", "uuid": e.uuid, "hidden": bool(e.hidden), "pos": (e.pos.x, e.pos.y), "size": (e.size.x, e.size.y),
                         "labels": [(l.pos.x, l.pos.y, l.size.x, l.size.y) for l in e.floating_labels],
@@ -1609,6 +1970,8 @@ def parser_run(ctx: Ctx, out: Outcome) -> None:
             for e in base:
                 if e["t"] == "edge":
                     stats["edges"][str(e["style"])] = stats["edges"].get(str(e["style"]), 0) + 1
+                    if "Edge" in e["ends_t"]:
+                        stats["edges_attached_to_edges"] = stats.get("edges_attached_to_edges", 0) + 1
                 if e["t"] == "box" and e["port"]:
                     stats["ports"] += 1
             nontrivial = any(e["t"] == "edge" or e.get("parent") for e in base)
@@ -1717,6 +2080,8 @@ def run(ctx: Ctx) -> Outcome:
     kernel_random(ctx, out, diagram)
     kernel_misc(ctx, out, diagram)
     edge_chain(ctx, out, diagram)
+    edge_ends(ctx, out, diagram)
+    robustness(ctx, out, diagram)
     box_tree(ctx, out, diagram)
     circle_snap(ctx, out, diagram)
     parser_run(ctx, out)
@@ -1753,6 +2118,18 @@ def replay(ctx: Ctx, case: dict):
             bad = edge_monitor(rig, c, rig.edge(c), v)
         else:
             bad = snapend_monitor(rig, c, rig.snapend(c), v)
+        return "; ".join(f"{sig}: {what}" for sig, what in bad[:3]) or None
+    if kind == "edgeend":
+        rig = EdgeRig(diagram)
+
+        def dec_end(e):
+            if "edge" in e:
+                return {"edge": [(F(x), F(y)) for x, y in e["edge"]], "labels": [tuple(F(x) for x in l) for l in e["labels"]]}
+            return {"box": tuple(F(x) for x in e["box"]), "port": e["port"], "labels": []}
+
+        c = {"src": dec_end(case["src"]), "tgt": dec_end(case["tgt"]), "anchor": tuple(F(a) for a in case["anchor"]),
+             "rel": [tuple(r) for r in case["rel"]] if case["rel"] is not None else None, "style": case["style"]}
+        bad = edge_end_monitor(rig, c, impl_edge_end(rig, c), tuple(case["v"]))
         return "; ".join(f"{sig}: {what}" for sig, what in bad[:3]) or None
     if kind == "circle":
         c = {k: ([F(x) for x in v] if isinstance(v, list) else (F(v) if k == "r" else v)) for k, v in case.items() if k not in ("kind", "v", "gen")}
